@@ -1,20 +1,280 @@
 import UPVerif.Core.PddlRead
+import UPVerif.Core.FromPddl
+import UPVerif.Lemmas.FromPddlExample
+import UPVerif.Lemmas.FromPddlWhole
 /-!
 # C21 — The two PDDL readers produce equivalent problems
 
-Level `translation_validation`: there is NO theorem about the external `pddl` parser or pyparsing.  Equivalence of
-`PDDLReader(force_up_pddl_reader=True)` and `PDDLReader(force_ai_planning_reader=True)` is established per input by
-comparing EACH real reader with the one reference reader `UPVerif.Pddl.pddlRead` (harness/props/C21.py), which is
-a function: two readers that both agree with it agree with each other.  The only fact recorded here is that
-determinism, so that the audit has an obligation to check.
+The FIRST reader (`UPPDDLReader`, pyparsing) is modelled by `Pddl.pddlRead` (Core/PddlRead.lean, shared with C18);
+the SECOND (`PDDLReader(force_ai_planning_reader=True)`: external `pddl` package + `unified_planning/interop/from_pddl.py`)
+by `FromPddl.aiRead = fromPddl ∘ astOf` (Core/FromPddl.lean): `fromPddl` mirrors the converter function by function,
+`astOf` states what the external parser builds (the trusted, sampled piece: compared on every run with a dump of the real
+package's objects).  Both models are functions of the two token trees; the theorems below relate them FOR ALL TREES, by
+structural induction — no size bound.
+
+What "equivalent" means (Lemmas/FromPddlSem.lean, FromPddlRel.lean, FromPddlEffDefs.lean):
+* `FRel e e'`   numeric expressions / terms: same free variables and `EqW` — the same value, or both undefined, under
+                every instantiation of parameters and variables, in every well-typed state, for every variable assignment;
+* `GdRel e e'`  conditions: both built like conditions, same free variables, same truth value (hence `EqW`);
+* `EffRel`, `EffsRel`  effects: same target, kind and quantified variables, `FRel` values, `GdRel` conditions; lists of
+                effects up to ORDER (the first reader walks breadth first, the converter depth first with a stack);
+* `ActRel`      actions: same name and parameters, `GdRel` preconditions (as conjunctions), `EffsRel` effects, the cost the
+                converter extracts being the `increase` of `total-cost` the first reader keeps as an effect.
+`C21_related_actions_same_successor` ties these relations to C01: related preconditions and effects have the same
+documented successor (`Spec.successorOf`) from every well-typed state under every instantiation.
+
+Status
+* `C21_numeric_expressions`, `C21_conditions`, `C21_effects`, `C21_actions` — FULL for their syntactic class: for every
+  tree on which both models are defined and that satisfies the decidable side conditions `fexpOK` / `gdOK` / `effOK` /
+  `actionOK` (Lemmas/FromPddlFrag.lean, FromPddlEffLeaf.lean, FromPddlAction.lean), which exclude exactly the three
+  behaviours of the external parser recorded as findings D-C21a/b/c (each refuted below on a concrete witness), ill-typed
+  atoms (rejected by both real readers' type checker, which the models do not contain) and quantifiers declaring one name
+  twice.  Hypotheses `EnvAgree` / `NamesOK` / `CostAgree`: the two readers' symbol tables describe the same declarations.
+* `C21_related_actions_same_successor` — FULL (semantics of the relations w.r.t. C01's successor).
+* `C21_readers_equivalent_partial` — the WHOLE PROBLEM, for every pair of token trees both readers accept: same name,
+  same fluents, same objects, same initial values, related goals, related actions (pairwise, in order), related metric.
+  PARTIAL in two respects, stated by `C21_readers_equivalent_full` (a `def … : Prop`, not proved):
+    - no function called `total-cost` (`FilesOK.noTC`): the action-cost bookkeeping that moves `total-cost` into a
+      `MinimizeActionCosts` metric is proved per action (`C21_actions` with `CostAgree`, cost = the `increase` the first
+      reader keeps) but not assembled over the problem;
+    - the user-type hierarchy (`Problem.types`) is not in `ProblemRel`: the first reader's `resolveTypes` and the
+      converter's `userTypes` build it in different orders; it is compared (sorted) by the correspondence only.
+  Remaining hypotheses: `NamesOK` (no fluent or object is spelled like a number, no object like a fluent) and the
+  decidable `FilesOK` (= `filesOKb`): the side conditions above on every action, goal and metric, and no verbatim
+  repetition among predicate declarations, actions and `:init` items (the external parser keeps these in sets).
+* the instantiation in `EqW` is the structural `inst` (parameters / variables replaced by the substitution's values); it
+  coincides with the simulator's `Sim.substE` on expressions built by the expression manager (not proved here).
 -/
 namespace UPVerif.C21
-open UPVerif UPVerif.Pddl
+open UPVerif UPVerif.Expr UPVerif.Pddl UPVerif.FromPddl UPVerif.Sim UPVerif.Spec
 
-/-- the reference reader is a function of the two trees: readers that agree with it agree with each other -/
+/-- the reference reader is a function of the two trees (kept from the translation-validation stage) -/
 theorem C21_reference_reader_functional (dom prob : Sexp) (P Q : Problem)
     (h1 : pddlRead dom prob = some P) (h2 : pddlRead dom prob = some Q) : P = Q := by
   rw [h1] at h2
   exact Option.some.inj h2
+
+/-! ## expressions -/
+
+/-- **Numeric expressions.**  On every tree that both readers accept as a numeric expression — nested and n-ary `+`/`*`
+    (the external parser splices them), `/`, unary minus (folded on constants by the converter, `-1 * e` for the first
+    reader), numbers, function applications — the two results have the same free variables and the same value under every
+    instantiation in every well-typed state.  `fexpOK`: no operand is dropped by the external parser (D-C21a). -/
+theorem C21_numeric_expressions {E : REnv} {CE : CEnv} {ps : List (String × Ty)} (ag : EnvAgree E CE ps) (nm : NamesOK E)
+    (C : PCtx) (t : Sexp) (sc qv : List Var) (e : Expr) (φ : Form) (e' : Expr) (hs : ScopeAgree sc qv)
+    (hU : readExpr E sc t = some e) (hA : astFexp C t = some φ) (hQ : convExpr CE ps qv φ = some e')
+    (hok : fexpOK C t = true) : FRel e e' :=
+  fexp_agree ag nm C t sc qv e φ e' hs hU hA hQ hok
+
+/-- **Conditions.**  On every tree that both readers accept as a condition — nested / repeated / empty `and`, `or` (spliced
+    and de-duplicated by the external parser, kept by the first reader), `not` (double negations collapsed by the manager),
+    `imply`, `exists` / `forall` (a quantified variable may re-use the name of a parameter or of an enclosing variable:
+    the innermost binding wins in both), `<`, `<=`, `>`, `>=`, `=` on numbers in either operand order, `=` on terms,
+    atoms — the two results are built like conditions, have the same free variables and the same truth value under every
+    instantiation in every well-typed state. -/
+theorem C21_conditions {E : REnv} {CE : CEnv} {ps : List (String × Ty)} (ag : EnvAgree E CE ps) (nm : NamesOK E)
+    (C : PCtx) (t : Sexp) (sc qv : List Var) (e : Expr) (φ : Form) (e' : Expr) (hs : ScopeAgree sc qv)
+    (hU : readExpr E sc t = some e) (hA : astGd C t = some φ) (hQ : convExpr CE ps qv φ = some e')
+    (hok : gdOK E.fluents C t = true) : GdRel e e' :=
+  gd_agree ag nm C t sc qv e φ e' hs hU hA hQ hok
+
+/-- related conditions are interchangeable: same value or both undefined, everywhere -/
+theorem C21_related_conditions_equivalent {e e' : Expr} (h : GdRel e e') : EqW e e' := h.eqW
+
+-- non-vacuity: concrete symbol tables meet `EnvAgree` / `NamesOK`, and a condition with nested and repeated conjuncts, an
+-- empty `and`, a double negation, a quantifier shadowing the parameter `?u`, `>=`, a nested sum, a unary minus, an equality
+-- of terms and one of numbers is accepted by both models and meets `gdOK`
+example : EnvAgree Example.E0 Example.CE0 Example.ps0 := Example.envAgree0
+example : NamesOK Example.E0 := Example.namesOK0
+example : ScopeAgree [] [] := scope_refl []
+example : (readExpr Example.E0 [] Example.cond0).isSome = true ∧
+    ((astGd Example.C0 Example.cond0).bind (convExpr Example.CE0 Example.ps0 [])).isSome = true ∧
+    gdOK Example.E0.fluents Example.C0 Example.cond0 = true := by decide +kernel
+example : (readExpr Example.E0 [] (Example.l [Example.a "*", Example.l [Example.a "y"], Example.l [Example.a "*", Example.a "2", Example.l [Example.a "x"]]])).isSome = true ∧
+    fexpOK Example.C0 (Example.l [Example.a "*", Example.l [Example.a "y"], Example.l [Example.a "*", Example.a "2", Example.l [Example.a "x"]]]) = true := by
+  decide +kernel
+
+/-! ## effects and actions -/
+
+/-- **Effects.**  On every `:effect` both readers accept — conjunctions, `when`, `forall` (also shadowing a parameter),
+    atoms, negated atoms, `assign` / `increase` / `decrease`, the cost effect on `total-cost` — the effects the first
+    reader's breadth-first walk yields and those the converter's stack yields (plus, for a cost, the `increase` of
+    `total-cost` that the first reader keeps) are the same up to order, pairwise related. -/
+theorem C21_effects {E : REnv} {CE : CEnv} {ps : List (String × Ty)} {hc : Bool} {tc : Expr} (ag : EnvAgree E CE ps)
+    (nm : NamesOK E) (C : PCtx) (ca : CostAgree E hc tc) (t : Sexp) (φ : Form) (es out : List Effect) (cost : Option Expr)
+    (hU : readEffects E t = some es) (hA : astEffect C t = some φ)
+    (hQ : convEffects CE hc ps φ = some (out, cost)) (hok : effOK E.fluents C t = true) :
+    EffsRel es (out ++ cost.toList.map (costEff tc)) :=
+  effects_agree ag nm C ca t φ es out cost hU hA hQ hok
+
+/-- **Actions.**  On every `(:action …)` form both readers accept: same name, same parameters, related preconditions,
+    related effects.  `actionOK`: the precondition is not `()` (D-C21b), `gdOK` on it, `effOK` on the effect. -/
+theorem C21_actions {E : REnv} {CE : CEnv} {hc : Bool} {tc : Expr} (C : PCtx) (nm : NamesOK E) (ca : CostAgree E hc tc)
+    (hfl : ∀ n f, CE.fluent? n = some f → E.fluent? n = some f)
+    (hobj : ∀ s, E.objects.lookup s = CE.objects.lookup s ∨ E.objects.lookup s = none)
+    (hof : ∀ s t, CE.objects.lookup s = some t → E.fluent? s = none)
+    (hid : ∀ t n, (CE.types.lookup t).join = some n → n = t)
+    (t : Sexp) (a : Action) (pa : PAction) (a' : Action) (cost : Option Expr)
+    (hU : readAction E t = some a) (hA : astAction C t = some pa) (hQ : convAction CE hc pa = some (a', cost))
+    (hok : actionOK E.fluents C t = true) : ActRel tc a a' cost :=
+  action_agree C nm ca hfl hobj hof hid t a pa a' cost hU hA hQ hok
+
+-- non-vacuity: an action with the condition above as precondition and conditional, universal (shadowing) and numeric effects
+example : NamesOK Example.E1 := Example.namesOK1
+example : CostAgree Example.E1 false Expr.tt := ⟨fun h => by cases h⟩
+example : (readAction Example.E1 Example.act0).isSome = true ∧
+    ((astAction Example.C0 Example.act0).bind (convAction Example.CE0 false)).isSome = true ∧
+    actionOK Example.E1.fluents Example.C0 Example.act0 = true := by decide +kernel
+
+/-- **What the relations mean for C01.**  Preconditions related as conjunctions and effects related up to order have the
+    same documented successor (`Spec.successorOf`: applicability and resulting state) from every well-typed state, under
+    every instantiation of parameters and universally quantified variables. -/
+theorem C21_related_actions_same_successor (W : World) (s : SimState) (w : WTCtx (ctx W s)) {tc : Expr} {a a' : Action}
+    (h : ActRel tc a a' none) (σs : List Subst) :
+    successorOf W s (a.pre.map (instAll σs)) (a.effs.map (instEff σs)) =
+      successorOf W s (a'.pre.map (instAll σs)) (a'.effs.map (instEff σs)) := by
+  have he : EffsRel a.effs a'.effs := by simpa using h.effs
+  exact successorOf_congr W s w h.pre he σs
+
+/-! ## the three behaviours of the external parser that break the equivalence (findings D-C21a, D-C21b, D-C21c)
+
+Each `_unrestricted` statement is the theorem above WITHOUT its side condition; it is refuted on a concrete witness. -/
+
+def C21_numeric_expressions_unrestricted : Prop :=
+  ∀ (E : REnv) (CE : CEnv) (ps : List (String × Ty)) (C : PCtx) (t : Sexp) (e : Expr) (φ : Form) (e' : Expr),
+    EnvAgree E CE ps → NamesOK E → readExpr E [] t = some e → astFexp C t = some φ → convExpr CE ps [] φ = some e' → EqW e e'
+
+/-- D-C21a: `(+ (x) (x) (y))` — the external parser drops the second `(x)`: in a state with `x = 1`, `y = 0` the first
+    reader's expression is worth 2, the second reader's 1 -/
+theorem C21_repeated_operands_witness : ¬ C21_numeric_expressions_unrestricted := by
+  intro h
+  have hU : readExpr Example.E0 [] Example.sum0 = some
+      (.app .plus [.app (.fluent Example.fx) [], .app (.fluent Example.fx) [], .app (.fluent Example.fy) []]) := by
+    decide +kernel
+  have hA : (astFexp Example.C0 Example.sum0).bind (convExpr Example.CE0 Example.ps0 []) = some
+      (.app .plus [.app (.fluent Example.fx) [], .app (.fluent Example.fy) []]) := by decide +kernel
+  rw [Option.bind_eq_some_iff] at hA
+  obtain ⟨φ, hφ, hc⟩ := hA
+  have := h Example.E0 Example.CE0 Example.ps0 Example.C0 Example.sum0 _ φ _ Example.envAgree0 Example.namesOK0 hU hφ hc
+    [] Example.c0 [] Example.wt_c0
+  revert this
+  decide +kernel
+
+def C21_actions_unrestricted : Prop :=
+  ∀ (E : REnv) (CE : CEnv) (C : PCtx) (t : Sexp) (a : Action) (pa : PAction) (a' : Action),
+    NamesOK E → (∀ n f, CE.fluent? n = some f → E.fluent? n = some f) → CE.objects = E.objects →
+    (∀ s t, CE.objects.lookup s = some t → E.fluent? s = none) →
+    (∀ t n, (CE.types.lookup t).join = some n → n = t) →
+    readAction E t = some a → astAction C t = some pa → convAction CE false pa = some (a', none) →
+    GdRel (mkAnd a.pre) (mkAnd a'.pre)
+
+/-- D-C21b: `:precondition ()` — TRUE for the first reader, `(or)` = FALSE for the external parser -/
+theorem C21_empty_precondition_witness : ¬ C21_actions_unrestricted := by
+  intro h
+  have hU : (readAction Example.E1 Example.actB).map (·.pre) = some [] := by decide +kernel
+  have hA : ((astAction Example.C0 Example.actB).bind (convAction Example.CE0 false)).map (fun r => (r.1.pre, r.2)) =
+      some ([Expr.ff], none) := by decide +kernel
+  rw [Option.map_eq_some_iff] at hU hA
+  obtain ⟨a, ha, hpre⟩ := hU
+  obtain ⟨⟨a', cost⟩, haa, hpre'⟩ := hA
+  rw [Option.bind_eq_some_iff] at haa
+  obtain ⟨pa, hpa, hcv⟩ := haa
+  simp only [Prod.mk.injEq] at hpre'
+  obtain ⟨hp', rfl⟩ := hpre'
+  have hr := h Example.E1 Example.CE0 Example.C0 Example.actB a pa a' Example.namesOK1 (fun _ _ x => x) rfl Example.objFluent0 Example.types_id0
+    ha hpa hcv
+  rw [hpre, hp'] at hr
+  have := hr.eq [] Example.c0 [] Example.wt_c0
+  revert this
+  decide +kernel
+
+def C21_effects_unrestricted : Prop :=
+  ∀ (E : REnv) (CE : CEnv) (ps : List (String × Ty)) (C : PCtx) (t : Sexp) (φ : Form) (es out : List Effect),
+    EnvAgree E CE ps → NamesOK E → readEffects E t = some es → astEffect C t = some φ →
+    convEffects CE false ps φ = some (out, none) → es.length = out.length
+
+/-- D-C21c: `(and (increase (y) 1) (increase (y) 1))` — two effects for the first reader (`y += 2`), one for the second -/
+theorem C21_repeated_effects_witness : ¬ C21_effects_unrestricted := by
+  intro h
+  have hU : (readEffects Example.E0 Example.effC).map List.length = some 2 := by decide +kernel
+  have hA : ((astEffect Example.C0 Example.effC).bind (convEffects Example.CE0 false Example.ps0)).map
+      (fun r => (r.1.length, r.2)) = some (1, none) := by decide +kernel
+  rw [Option.map_eq_some_iff] at hU hA
+  obtain ⟨es, hes, hl⟩ := hU
+  obtain ⟨⟨out, cost⟩, hoc, hl'⟩ := hA
+  rw [Option.bind_eq_some_iff] at hoc
+  obtain ⟨φ, hφ, hcv⟩ := hoc
+  simp only [Prod.mk.injEq] at hl'
+  obtain ⟨hlo, rfl⟩ := hl'
+  have := h Example.E0 Example.CE0 Example.ps0 Example.C0 Example.effC φ es out Example.envAgree0 Example.namesOK0 hes hφ hcv
+  omega
+
+/-! ## the whole problem
+
+`ProblemRel P R` (Lemmas/FromPddlWhole.lean): same name, fluents, objects and initial values; `GdRel` goals; actions
+pairwise `ActRel … none`, in order; metrics pairwise `MetricRel` (`FRel` expressions).  `FilesOK` = `filesOKb`, decidable. -/
+
+/-- **The two readers on a whole pair of files.**  For every domain tree and problem tree that both readers accept and in
+    which no function is called `total-cost`: the problems they produce are related by `ProblemRel`.
+    Hypotheses: `NamesOK` — no fluent or object is spelled like a number, no object like a fluent; `FilesOK` — on the
+    sections of the two files: `actionOK` on every action (which excludes D-C21a/b/c), `gdOK` on the goal, `fexpOK` on the
+    metric, and no verbatim repetition among predicate declarations, actions, `:init` items. -/
+theorem C21_readers_equivalent_partial (dom prob : Sexp) (P R : Problem) (A : PddlAst) (hU : pddlRead dom prob = some P)
+    (hA : astOf dom prob = some A) (hR : fromPddl A = some R) (nm : NamesOK (envOf P))
+    (hntc : ∀ D, splitDomain (lowerSexp dom) = some D → noTotalCost D.functions = true)
+    (hok : ∀ D Q, splitDomain (lowerSexp dom) = some D → splitProblem (lowerSexp prob) = some Q →
+      FilesOK (P.fluents.map (·.ref)) (ctxOf A) D Q) : ProblemRel P R :=
+  problems_agree hU hA hR nm hntc hok
+
+/-- related problems have, action by action, the same documented successor -/
+theorem C21_related_problems_same_successors (W : World) (s : SimState) (w : WTCtx (ctx W s)) {P R : Problem}
+    (h : ProblemRel P R) (i : Nat) (h1 : i < P.actions.length) (h2 : i < R.actions.length) (σs : List Subst) :
+    successorOf W s (P.actions[i].pre.map (instAll σs)) (P.actions[i].effs.map (instEff σs)) =
+      successorOf W s (R.actions[i].pre.map (instAll σs)) (R.actions[i].effs.map (instEff σs)) :=
+  C21_related_actions_same_successor W s w (h.actions.get i h1 h2) σs
+
+-- non-vacuity: a domain with the action above (typed, constants, predicates, numeric functions) and a problem with
+-- `:init`, goal and metric: both readers accept it, and every hypothesis of the theorem holds
+example : ∃ P R A, pddlRead Example.dom0 Example.prob0 = some P ∧ astOf Example.dom0 Example.prob0 = some A ∧
+    fromPddl A = some R ∧ NamesOK (envOf P) ∧
+    (∀ D, splitDomain (lowerSexp Example.dom0) = some D → noTotalCost D.functions = true) ∧
+    (∀ D Q, splitDomain (lowerSexp Example.dom0) = some D → splitProblem (lowerSexp Example.prob0) = some Q →
+      FilesOK (P.fluents.map (·.ref)) (ctxOf A) D Q) := by
+  have h1 : ((pddlRead Example.dom0 Example.prob0).bind fun P => (astOf Example.dom0 Example.prob0).bind fun A =>
+      (fromPddl A).bind fun _ => (splitDomain (lowerSexp Example.dom0)).bind fun D =>
+      (splitProblem (lowerSexp Example.prob0)).map fun Q =>
+        (decide (P.fluents.map (·.ref) = Example.E1.fluents) && decide (P.objects = Example.E1.objects) &&
+          noTotalCost D.functions && filesOKb (P.fluents.map (·.ref)) (ctxOf A) D Q)) = some true := by decide +kernel
+  simp only [Option.bind_eq_some_iff, Option.map_eq_some_iff] at h1
+  obtain ⟨P, hP, A, hA, R, hR, D, hD, Q, hQ, hb⟩ := h1
+  simp only [Bool.and_eq_true, decide_eq_true_eq] at hb
+  obtain ⟨⟨⟨hf, ho⟩, hn⟩, hok⟩ := hb
+  refine ⟨P, R, A, hP, hA, hR, ?_, ?_, ?_⟩
+  · exact namesOK_congr (E := Example.E1) (by simp [envOf, hf]) (by simp [envOf, ho]) Example.namesOK1
+  · intro D' hD'
+    rw [hD] at hD'; cases hD'; exact hn
+  · intro D' Q' hD' hQ'
+    rw [hD] at hD'; cases hD'
+    rw [hQ] at hQ'; cases hQ'
+    exact filesOKb_sound hok
+
+/-- what the full statement adds: the metric of an action-cost problem, and the user-type hierarchy -/
+inductive MetricRelC : Metric → Metric → Prop
+  | plain {m m' : Metric} : MetricRel m m' → MetricRelC m m'
+  | minLength : MetricRelC .minLength .minLength
+  | minActionCosts {cs cs' : List (String × Expr)} {d : Option Expr} :
+      All2 (fun c c' => c.1 = c'.1 ∧ FRel c.2 c'.2) cs cs' → MetricRelC (.minActionCosts cs d) (.minActionCosts cs' d)
+
+/-- **Full statement** (NOT proved; see the header): as `C21_readers_equivalent_partial` without the hypothesis that no
+    function is called `total-cost` — an action-cost metric on either side is then related by `MetricRelC` — and with the
+    user types: the same (type, father) pairs on both sides. -/
+def C21_readers_equivalent_full : Prop :=
+  ∀ (dom prob : Sexp) (P R : Problem) (A : PddlAst), pddlRead dom prob = some P → astOf dom prob = some A →
+    fromPddl A = some R → NamesOK (envOf P) →
+    (∀ D Q, splitDomain (lowerSexp dom) = some D → splitProblem (lowerSexp prob) = some Q →
+      FilesOK (P.fluents.map (·.ref)) (ctxOf A) D Q) →
+    P.name = R.name ∧ P.fluents = R.fluents ∧ P.objects = R.objects ∧ P.init = R.init ∧
+    GdRel (mkAnd P.goals) (mkAnd R.goals) ∧ All2 (fun a a' => ActRel Expr.tt a a' none) P.actions R.actions ∧
+    All2 MetricRelC P.metrics R.metrics ∧ (∀ tf, tf ∈ P.types.fathers ↔ tf ∈ R.types.fathers)
 
 end UPVerif.C21
